@@ -50,7 +50,7 @@ def explore_model(pid: str, cfg_name: str, tier: str, seed: int, **kw: Any) -> D
     pre = plan.pop("pre", None)
     exkw: Dict[str, Any] = dict(
         keys=cfg.keys(tier, env),
-        max_depth=cfg.depth,
+        max_depth=cfg.depth_for(tier),
         max_states=cfg.max_states(tier),
         seed=seed,
         ctor=cfg.ctor,
